@@ -18,7 +18,12 @@ def plan(tier):
           (PG.forced_nowait_prompt(2, 1), 1, PT), (PG.forced_nowait_prompt(1, 2), 1, PT),
           (PG.forced_then_graceful(2, True), 1, PT), (PG.forced_then_graceful(1, False), 1, PT),
           (PG.forced_with_callbacks(1, False), 1, PT), (PG.forced_with_callbacks(2, True), 1, dict(kinds=("P",))),
-          (PG.shutdown_in_callback("shutdown_kill", 2, 3), 1, PT)]
+          (PG.shutdown_in_callback("shutdown_kill", 2, 3), 1, PT),
+          # a worker on its way out (idle timeout announced, released by the manager, not yet
+          # gone) when the forced shutdown arrives; workers run last (slow exit)
+          (PG.forced_while_worker_leaves(2), 1, dict(kinds=("T",), starve="worker")),
+          (PG.forced_while_worker_leaves(2), 1, PT),
+          (PG.forced_while_worker_leaves(3), 1, dict(kinds=("T",), starve="worker"))]
     if tier == "thorough":
         pl += [(PG.forced(2, False, 3), 2, PT), (PG.forced(2, True, 2), 2, dict(kinds=("P",)))]
     # source-line granularity (one preemption at any line of loky run by a parent thread)
